@@ -24,7 +24,8 @@ REQUIRED_FEATURES = ["merge:single-pass", "merge:two-pass", "chunks:empty", "chu
                      "ensure_sorted", "mode:square", "mode:symm", "maxmerge:below-chunk-count:2-3-chunks",
                      "epoch:empty-row-with-tiny-buffer", "chunks:all-empty", "counts:float-fractional",
                      "chunks:repeat-pixel-within-chunk(dupcheck=False)", "pixels:all-records-zero", "input-id-dtype:uint32",
-                     "input-id-dtype:uint64", "input-id-dtype:int32"]
+                     "input-id-dtype:uint64", "input-id-dtype:int32", "bins:extra-column-with-NaN:variable-width",
+                     "history:re-chunked-in-place-from-lazy-iterator"]
 
 
 def plan(tier, seed):
@@ -60,6 +61,12 @@ def one_multiset(ctx, shard, k, rng):
     bt = gen.gen_bt(rng, fam, max_chroms=3, max_bins=14)
     n = gen.bt_nbins(bt)
     bins = gen.bt_frame(bt)
+    if rng.random() < 0.3:
+        # a bin-level annotation column with missing values (it travels through every temporary cooler)
+        wcol = np.round(rng.random(n), 3)
+        wcol[rng.random(n) < 0.3] = np.nan
+        wcol[0] = np.nan
+        bins["weight"] = wcol
     symm = bool(rng.random() < 0.6)
     two_cols = bool(rng.random() < 0.4)
     float_counts = bool(rng.random() < 0.35)       # dtypes={"count": float}: fractional parts must survive every pass
@@ -170,6 +177,8 @@ def one_multiset(ctx, shard, k, rng):
             if mergebuf == 1:
                 c.feature("mergebuf:1")
             c.feature(f"input-id-dtype:{np.dtype(idt).name}")
+            if "weight" in bins.columns:
+                c.feature("bins:extra-column-with-NaN" + (":variable-width" if gen.bt_fixed_width(bt) is None else ""))
             if any(v == 0 for v in total.values()):
                 c.feature("pixels:all-records-zero")
             if ensure_sorted:
@@ -234,6 +243,22 @@ def one_multiset(ctx, shard, k, rng):
                 c.check(all(p.startswith(tdir) for p in _AUDIT["paths"]), "temp_dir-option-ignored",
                         f"temporary files were not created under temp_dir: {_AUDIT['paths']}")
             c.feature("tempfiles:observed-by-audit-hook" if _AUDIT["paths"] else "tempfiles:none-observed")
+            if x == 0 and total and not c.failed:
+                # history: the cooler is re-chunked IN PLACE - a lazy iterator over its own pixels is ingested into the
+                # same path with mode "w" (the external sort touches the output only after the input is exhausted)
+                src = cooler.Cooler(out)
+                step = max(1, len(total) // 3)
+
+                def lazy():
+                    for lo in range(0, len(total), step):
+                        yield src.pixels()[lo:lo + step]
+                kw2 = {k_: v_ for k_, v_ in kw.items() if k_ not in ("temp_dir", "metadata", "assembly")}
+                cooler.create_cooler(out, bins, lazy(), mode="w", **kw2)
+                keys2, cols2 = read_pixels_raw(out, "/", ("count",))
+                c.feature("history:re-chunked-in-place-from-lazy-iterator")
+                c.check(keys2 == want_keys and cols2["count"].tolist() == [total[kk] for kk in want_keys],
+                        "in-place-reingest-differs", "re-ingesting a cooler into its own path from a lazy iterator over its "
+                        "pixels does not reproduce it", lambda: {"got": keys2[:20], "want": want_keys[:20]})
             if nck >= 2 and total:
                 c.nontrivial(repr(bt), repr(desc["chunks"]), mergebuf, max_merge, symm)
             ctx.sample({"chunks": len(frames), "chunk_sizes": [len(f) for f in frames], "mergebuf": mergebuf,
